@@ -2,6 +2,7 @@ import ImathVerif.Spec.GeoSpec
 import ImathVerif.Lemmas.C15Lemmas
 import ImathVerif.Gen.C15Line
 import ImathVerif.Gen.C15Plane
+import ImathVerif.Gen.C15PlaneMul
 import ImathVerif.Gen.C15Sphere
 import ImathVerif.Gen.C15Algo
 /-!
@@ -284,5 +285,299 @@ theorem Line3_distanceToLine_partial (tmin : α) (sqrt : α → α) (hlen : LenS
   split_ifs with h
   · exact h
   · linarith
+
+/-! ## Plane3 -/
+
+/-- plane through three non-collinear points: unit normal, positively parallel to `(p2−p1)×(p3−p1)`, and all three
+defining points have signed distance zero -/
+theorem Plane3_setPoints (tmin : α) (sqrt : α → α) (hlen : LenSpec (Gen.V3.length tmin sqrt)) (p1 p2 p3 : V3 α)
+    (hnc : cross (sub p2 p1) (sub p3 p1) ≠ zero) :
+    dot (Gen.Plane3.setPoints tmin sqrt p1 p2 p3).normal (Gen.Plane3.setPoints tmin sqrt p1 p2 p3).normal = 1 ∧
+    OnPlane (Gen.Plane3.setPoints tmin sqrt p1 p2 p3) p1 ∧ OnPlane (Gen.Plane3.setPoints tmin sqrt p1 p2 p3) p2 ∧
+    OnPlane (Gen.Plane3.setPoints tmin sqrt p1 p2 p3) p3 ∧
+    ∃ k, 0 < k ∧ cross (sub p2 p1) (sub p3 p1) = smul k (Gen.Plane3.setPoints tmin sqrt p1 p2 p3).normal := by
+  simp only [Gen.Plane3.setPoints]
+  len_intro hlen L hsq hnn
+  have hL : L ≠ 0 := len_ne_zero hsq (by simpa only [cross, sub] using hnc)
+  have hpos : 0 < L := lt_of_le_of_ne hnn (Ne.symm hL)
+  rw [if_neg hL]
+  simp only [dot] at hsq
+  refine ⟨?_, ?_, ?_, ?_, L, hpos, ?_⟩
+  · simp only [dot]; field_simp; linarith
+  · simp only [OnPlane, signedDist, dot]; ring
+  · simp only [OnPlane, signedDist, dot]; field_simp; ring
+  · simp only [OnPlane, signedDist, dot]; field_simp; ring
+  · simp only [cross, sub, smul, V3.mk.injEq]
+    refine ⟨?_, ?_, ?_⟩ <;> field_simp
+
+/-- collinear points: the normal stays the zero vector (nothing is divided by zero) -/
+theorem Plane3_setPoints_degenerate (tmin : α) (sqrt : α → α) (hlen : LenSpec (Gen.V3.length tmin sqrt)) (p1 p2 p3 : V3 α)
+    (hc : cross (sub p2 p1) (sub p3 p1) = zero) :
+    Gen.Plane3.setPoints tmin sqrt p1 p2 p3 = ⟨zero, 0⟩ := by
+  simp only [Gen.Plane3.setPoints]
+  len_intro hlen L hsq hnn
+  simp only [cross, sub, zero, V3.mk.injEq] at hc
+  obtain ⟨h1, h2, h3⟩ := hc
+  have hL : L = 0 := by
+    simp only [dot, h1, h2, h3, mul_zero, add_zero] at hsq
+    exact pow_eq_zero_iff (two_ne_zero) |>.mp hsq
+  rw [if_pos hL]
+  simp only [zero, h1, h2, h3, zero_mul, add_zero]
+
+theorem Plane3_ctorPoints (tmin : α) (sqrt : α → α) (p1 p2 p3 : V3 α) :
+    Gen.Plane3.ctorPoints tmin sqrt p1 p2 p3 = Gen.Plane3.setPoints tmin sqrt p1 p2 p3 := rfl
+
+/-- point + (non-zero) normal: unit normal positively parallel to `n`, the defining point has signed distance zero -/
+theorem Plane3_setPointNormal (tmin : α) (sqrt : α → α) (hlen : LenSpec (Gen.V3.length tmin sqrt)) (point n : V3 α) (hn : n ≠ zero) :
+    dot (Gen.Plane3.setPointNormal tmin sqrt point n).normal (Gen.Plane3.setPointNormal tmin sqrt point n).normal = 1 ∧
+    OnPlane (Gen.Plane3.setPointNormal tmin sqrt point n) point ∧
+    ∃ k, 0 < k ∧ n = smul k (Gen.Plane3.setPointNormal tmin sqrt point n).normal := by
+  simp only [Gen.Plane3.setPointNormal]
+  len_intro hlen L hsq hnn
+  have hL : L ≠ 0 := len_ne_zero hsq (by cases n; simpa only [zero] using hn)
+  have hpos : 0 < L := lt_of_le_of_ne hnn (Ne.symm hL)
+  rw [if_neg hL]
+  simp only [dot] at hsq
+  refine ⟨?_, ?_, L, hpos, ?_⟩
+  · simp only [dot]; field_simp; linarith
+  · simp only [OnPlane, signedDist, dot]; ring
+  · cases n; simp only [smul, V3.mk.injEq]
+    refine ⟨?_, ?_, ?_⟩ <;> field_simp
+
+theorem Plane3_ctorPointNormal (tmin : α) (sqrt : α → α) (point n : V3 α) :
+    Gen.Plane3.ctorPointNormal tmin sqrt point n = Gen.Plane3.setPointNormal tmin sqrt point n := rfl
+
+/-- (non-zero) normal + distance: unit normal positively parallel to `n`, `distance = d`, and the point `d·normal`
+is on the plane -/
+theorem Plane3_setNormalDistance (tmin : α) (sqrt : α → α) (hlen : LenSpec (Gen.V3.length tmin sqrt)) (n : V3 α) (d : α) (hn : n ≠ zero) :
+    dot (Gen.Plane3.setNormalDistance tmin sqrt n d).normal (Gen.Plane3.setNormalDistance tmin sqrt n d).normal = 1 ∧
+    (Gen.Plane3.setNormalDistance tmin sqrt n d).distance = d ∧
+    OnPlane (Gen.Plane3.setNormalDistance tmin sqrt n d) (smul d (Gen.Plane3.setNormalDistance tmin sqrt n d).normal) ∧
+    ∃ k, 0 < k ∧ n = smul k (Gen.Plane3.setNormalDistance tmin sqrt n d).normal := by
+  simp only [Gen.Plane3.setNormalDistance]
+  len_intro hlen L hsq hnn
+  have hL : L ≠ 0 := len_ne_zero hsq (by cases n; simpa only [zero] using hn)
+  have hpos : 0 < L := lt_of_le_of_ne hnn (Ne.symm hL)
+  rw [if_neg hL]
+  simp only [dot] at hsq
+  refine ⟨?_, rfl, ?_, L, hpos, ?_⟩
+  · simp only [dot]; field_simp; linarith
+  · simp only [OnPlane, signedDist, dot, smul]; field_simp; linear_combination d * hsq.symm
+  · cases n; simp only [smul, V3.mk.injEq]
+    refine ⟨?_, ?_, ?_⟩ <;> field_simp
+
+theorem Plane3_ctorNormalDistance (tmin : α) (sqrt : α → α) (n : V3 α) (d : α) :
+    Gen.Plane3.ctorNormalDistance tmin sqrt n d = Gen.Plane3.setNormalDistance tmin sqrt n d := rfl
+
+/-- `distanceTo` is the signed distance `normal·p − distance` -/
+theorem Plane3_distanceTo (pl : Plane3 α) (p : V3 α) : Gen.Plane3.distanceTo pl p = signedDist pl p := by
+  simp only [Gen.Plane3.distanceTo, signedDist, dot]; ring
+
+/-- `reflectPoint p = p − 2·dist(p)·normal`; for a unit normal it is an involution that negates the signed distance
+(so the midpoint of `p` and its image lies on the plane and the connecting segment is parallel to the normal) -/
+theorem Plane3_reflectPoint (pl : Plane3 α) (p : V3 α) :
+    Gen.Plane3.reflectPoint pl p = sub p (smul (2 * signedDist pl p) pl.normal) ∧
+    (dot pl.normal pl.normal = 1 →
+      signedDist pl (Gen.Plane3.reflectPoint pl p) = - signedDist pl p ∧
+      Gen.Plane3.reflectPoint pl (Gen.Plane3.reflectPoint pl p) = p) := by
+  refine ⟨?_, fun hu => ⟨?_, ?_⟩⟩
+  · simp only [Gen.Plane3.reflectPoint, signedDist, dot, sub, smul, V3.mk.injEq]
+    refine ⟨?_, ?_, ?_⟩ <;> ring
+  · simp only [Gen.Plane3.reflectPoint, signedDist, dot] at hu ⊢
+    linear_combination (-2 * (p.x * pl.normal.x + p.y * pl.normal.y + p.z * pl.normal.z - pl.distance)) * hu
+  · cases p with | mk px py pz =>
+    simp only [Gen.Plane3.reflectPoint, dot, V3.mk.injEq] at hu ⊢
+    refine ⟨?_, ?_, ?_⟩
+    · linear_combination (4 * pl.normal.x * (px * pl.normal.x + py * pl.normal.y + pz * pl.normal.z - pl.distance)) * hu
+    · linear_combination (4 * pl.normal.y * (px * pl.normal.x + py * pl.normal.y + pz * pl.normal.z - pl.distance)) * hu
+    · linear_combination (4 * pl.normal.z * (px * pl.normal.x + py * pl.normal.y + pz * pl.normal.z - pl.distance)) * hu
+
+/-- `reflectVector v = 2(n·v)n − v` (the mirror-direction convention: the normal component is kept, the tangential
+component is negated); for a unit normal it is an involution and preserves length -/
+theorem Plane3_reflectVector (pl : Plane3 α) (v : V3 α) :
+    Gen.Plane3.reflectVector pl v = sub (smul (2 * dot pl.normal v) pl.normal) v ∧
+    (dot pl.normal pl.normal = 1 →
+      dot pl.normal (Gen.Plane3.reflectVector pl v) = dot pl.normal v ∧
+      dot (Gen.Plane3.reflectVector pl v) (Gen.Plane3.reflectVector pl v) = dot v v ∧
+      Gen.Plane3.reflectVector pl (Gen.Plane3.reflectVector pl v) = v) := by
+  refine ⟨?_, fun hu => ⟨?_, ?_, ?_⟩⟩
+  · simp only [Gen.Plane3.reflectVector, dot, sub, smul, V3.mk.injEq]
+    refine ⟨?_, ?_, ?_⟩ <;> ring
+  · simp only [Gen.Plane3.reflectVector, dot] at hu ⊢
+    linear_combination (2 * (pl.normal.x * v.x + pl.normal.y * v.y + pl.normal.z * v.z)) * hu
+  · simp only [Gen.Plane3.reflectVector, dot] at hu ⊢
+    linear_combination (4 * (pl.normal.x * v.x + pl.normal.y * v.y + pl.normal.z * v.z) ^ 2) * hu
+  · cases v with | mk vx vy vz =>
+    simp only [Gen.Plane3.reflectVector, dot, V3.mk.injEq] at hu ⊢
+    refine ⟨?_, ?_, ?_⟩
+    · linear_combination (4 * pl.normal.x * (pl.normal.x * vx + pl.normal.y * vy + pl.normal.z * vz)) * hu
+    · linear_combination (4 * pl.normal.y * (pl.normal.x * vx + pl.normal.y * vy + pl.normal.z * vz)) * hu
+    · linear_combination (4 * pl.normal.z * (pl.normal.x * vx + pl.normal.y * vy + pl.normal.z * vz)) * hu
+
+/-- line–plane `intersectT`: for a line not parallel to the plane the result is `true` with THE parameter whose point
+lies on the plane; a parallel line (`normal·dir = 0`) is reported `false` (nothing is divided by zero) -/
+theorem Plane3_intersectT (pl : Plane3 α) (l : Line3 α) :
+    (dot pl.normal l.dir ≠ 0 →
+      (Gen.Plane3.intersectT pl l).1 = true ∧ OnPlane pl (lineAt l (Gen.Plane3.intersectT pl l).2) ∧
+      ∀ t, OnPlane pl (lineAt l t) → t = (Gen.Plane3.intersectT pl l).2) ∧
+    (dot pl.normal l.dir = 0 → (Gen.Plane3.intersectT pl l).1 = false) := by
+  simp only [Gen.Plane3.intersectT, dot, OnPlane, signedDist, lineAt]
+  constructor
+  · intro hd
+    rw [if_neg hd]
+    refine ⟨rfl, ?_, ?_⟩
+    · simp only []; field_simp; ring
+    · intro t ht
+      simp only []
+      field_simp
+      linear_combination ht
+  · intro hd
+    rw [if_pos hd]
+
+/-- `intersect` returns the same verdict and the point at the parameter of `intersectT`, which lies on the line and
+on the plane -/
+theorem Plane3_intersect (pl : Plane3 α) (l : Line3 α) :
+    (Gen.Plane3.intersect pl l).1 = (Gen.Plane3.intersectT pl l).1 ∧
+    ((Gen.Plane3.intersect pl l).1 = true →
+      (Gen.Plane3.intersect pl l).2 = lineAt l (Gen.Plane3.intersectT pl l).2 ∧
+      OnLine l (Gen.Plane3.intersect pl l).2 ∧ OnPlane pl (Gen.Plane3.intersect pl l).2) := by
+  by_cases hd : dot pl.normal l.dir = 0
+  · have hd' := hd
+    simp only [dot] at hd'
+    constructor
+    · simp only [Gen.Plane3.intersect, Gen.Plane3.intersectT, if_pos hd']
+    · intro h
+      simp only [Gen.Plane3.intersect, if_pos hd'] at h
+      cases h
+  · have hT := (Plane3_intersectT pl l).1 hd
+    have hd' := hd
+    simp only [dot] at hd'
+    have hpt : (Gen.Plane3.intersect pl l).2 = lineAt l (Gen.Plane3.intersectT pl l).2 := by
+      simp only [Gen.Plane3.intersect, Gen.Plane3.intersectT, if_neg hd', lineAt]
+    refine ⟨?_, fun _ => ⟨hpt, ⟨_, hpt⟩, ?_⟩⟩
+    · simp only [Gen.Plane3.intersect, Gen.Plane3.intersectT, if_neg hd']
+    · rw [hpt]; exact hT.2.1
+
+/-- unary minus of a plane with unit normal: the same point set with the opposite orientation -/
+theorem Plane3_neg (tmin : α) (sqrt : α → α) (hlen : LenSpec (Gen.V3.length tmin sqrt)) (pl : Plane3 α)
+    (hu : dot pl.normal pl.normal = 1) :
+    Gen.Plane3.neg tmin sqrt pl = ⟨neg pl.normal, -pl.distance⟩ ∧
+    ∀ p, signedDist (Gen.Plane3.neg tmin sqrt pl) p = - signedDist pl p := by
+  have h1 : Gen.Plane3.neg tmin sqrt pl = ⟨neg pl.normal, -pl.distance⟩ := by
+    simp only [Gen.Plane3.neg]
+    len_intro hlen L hsq hnn
+    have hL : L = 1 := by
+      apply len_unit _ hnn
+      rw [hsq]; simp only [dot] at hu ⊢; linear_combination hu
+    subst hL
+    simp only [one_ne_zero, if_false, div_one, neg]
+  refine ⟨h1, fun p => ?_⟩
+  rw [h1]; simp only [signedDist, dot, neg]; ring
+
+
+/-! ## operator* (Plane3, Matrix44) -/
+
+/-- the plane through the images of `point = d·n`, `point + D×n`, `point + D` -/
+def planeVia (tmin : α) (sqrt : α → α) (pl : Plane3 α) (m : M44 α) (D : V3 α) : Plane3 α :=
+  Gen.Plane3.setPoints tmin sqrt (mulM44 (smul pl.distance pl.normal) m)
+    (mulM44 (add (smul pl.distance pl.normal) (cross D pl.normal)) m) (mulM44 (add (smul pl.distance pl.normal) D) m)
+
+theorem Plane3_mulM44_cases (tmin : α) (sqrt : α → α) (pl : Plane3 α) (m : M44 α) :
+    ∃ D, (D = cross ⟨1, 0, 0⟩ pl.normal ∨ D = cross ⟨0, 1, 0⟩ pl.normal ∨ D = cross ⟨0, 0, 1⟩ pl.normal) ∧
+      dot (cross ⟨1, 0, 0⟩ pl.normal) (cross ⟨1, 0, 0⟩ pl.normal) ≤ dot D D ∧
+      dot (cross ⟨0, 1, 0⟩ pl.normal) (cross ⟨0, 1, 0⟩ pl.normal) ≤ dot D D ∧
+      dot (cross ⟨0, 0, 1⟩ pl.normal) (cross ⟨0, 0, 1⟩ pl.normal) ≤ dot D D ∧
+      Gen.Plane3.mulM44 tmin sqrt pl m = planeVia tmin sqrt pl m D := by
+  by_cases c1 : dot (cross ⟨1, 0, 0⟩ pl.normal) (cross ⟨1, 0, 0⟩ pl.normal) < dot (cross ⟨0, 1, 0⟩ pl.normal) (cross ⟨0, 1, 0⟩ pl.normal)
+  · by_cases c2 : dot (cross ⟨0, 1, 0⟩ pl.normal) (cross ⟨0, 1, 0⟩ pl.normal) < dot (cross ⟨0, 0, 1⟩ pl.normal) (cross ⟨0, 0, 1⟩ pl.normal)
+    · refine ⟨cross ⟨0, 0, 1⟩ pl.normal, Or.inr (Or.inr rfl), by linarith, by linarith, le_refl _, ?_⟩
+      simp only [dot, cross] at c1 c2
+      simp only [Gen.Plane3.mulM44, planeVia, dot, cross, mulM44, add, sub, smul, if_pos c1, if_pos c2]
+    · refine ⟨cross ⟨0, 1, 0⟩ pl.normal, Or.inr (Or.inl rfl), by linarith, le_refl _, by linarith, ?_⟩
+      simp only [dot, cross] at c1 c2
+      simp only [Gen.Plane3.mulM44, planeVia, dot, cross, mulM44, add, sub, smul, if_pos c1, if_neg c2]
+  · by_cases c3 : dot (cross ⟨1, 0, 0⟩ pl.normal) (cross ⟨1, 0, 0⟩ pl.normal) < dot (cross ⟨0, 0, 1⟩ pl.normal) (cross ⟨0, 0, 1⟩ pl.normal)
+    · refine ⟨cross ⟨0, 0, 1⟩ pl.normal, Or.inr (Or.inr rfl), by linarith, by linarith, le_refl _, ?_⟩
+      simp only [dot, cross] at c1 c3
+      simp only [Gen.Plane3.mulM44, planeVia, dot, cross, mulM44, add, sub, smul, if_neg c1, if_pos c3]
+    · refine ⟨cross ⟨1, 0, 0⟩ pl.normal, Or.inl rfl, le_refl _, by linarith, by linarith, ?_⟩
+      simp only [dot, cross] at c1 c3
+      simp only [Gen.Plane3.mulM44, planeVia, dot, cross, mulM44, add, sub, smul, if_neg c1, if_neg c3]
+
+/-- `plane * M` for a plane with unit normal and a non-singular AFFINE `M` (last column `(0,0,0,1)ᵀ`): the result has a
+unit normal and the signed distance of every transformed point is a POSITIVE multiple `κ` of `det(M₃ₓ₃)` times the
+original signed distance.  Hence `p` on the plane ⇒ `p*M` on `plane*M` (it contains the transformed points of the
+plane), and for `det > 0` every point stays on the same side (for `det < 0` the sides are swapped). -/
+theorem Plane3_mulM44 (tmin : α) (sqrt : α → α) (hlen : LenSpec (Gen.V3.length tmin sqrt)) (pl : Plane3 α) (m : M44 α)
+    (hu : dot pl.normal pl.normal = 1) (haff : Affine m) (hdet : det3 m ≠ 0) :
+    dot (Gen.Plane3.mulM44 tmin sqrt pl m).normal (Gen.Plane3.mulM44 tmin sqrt pl m).normal = 1 ∧
+    ∃ κ, 0 < κ ∧ ∀ p, signedDist (Gen.Plane3.mulM44 tmin sqrt pl m) (mulM44 p m) = κ * det3 m * signedDist pl p := by
+  obtain ⟨D, hD, h1, h2, h3, heq⟩ := Plane3_mulM44_cases tmin sqrt pl m
+  have hDn : dot D pl.normal = 0 := by
+    rcases hD with h | h | h <;> (rw [h]; simp only [dot, cross]; ring)
+  have hDpos : 0 < dot D D := by
+    have hsum : dot (cross ⟨1, 0, 0⟩ pl.normal) (cross ⟨1, 0, 0⟩ pl.normal) + dot (cross ⟨0, 1, 0⟩ pl.normal) (cross ⟨0, 1, 0⟩ pl.normal)
+        + dot (cross ⟨0, 0, 1⟩ pl.normal) (cross ⟨0, 0, 1⟩ pl.normal) = 2 * dot pl.normal pl.normal := by
+      simp only [dot, cross]; ring
+    rw [hu] at hsum
+    linarith
+  have hnc := xformNormal_ne_zero pl.normal pl.distance m D haff hdet hu hDn hDpos
+  obtain ⟨hunit, hP0, _, _, k, hk, hkN⟩ := Plane3_setPoints tmin sqrt hlen _ _ _ hnc
+  rw [heq]
+  refine ⟨hunit, dot D D / k, div_pos hDpos hk, fun p => ?_⟩
+  have hcore := plane_xform_core pl.normal pl.distance m D p haff
+  have e1 : dot pl.normal (sub p (smul pl.distance pl.normal)) = signedDist pl p := by
+    simp only [dot, sub, smul, signedDist] at hu ⊢; linear_combination (-pl.distance) * hu
+  rw [hDn, e1, zero_mul, sub_zero] at hcore
+  have e2 : ∀ v, dot (xformNormal pl.normal pl.distance m D) v = k * dot (planeVia tmin sqrt pl m D).normal v := by
+    intro v
+    unfold xformNormal planeVia
+    rw [hkN]; simp only [dot, smul]; ring
+  have e3 : signedDist (planeVia tmin sqrt pl m D) (mulM44 p m)
+      = dot (planeVia tmin sqrt pl m D).normal (sub (mulM44 p m) (mulM44 (smul pl.distance pl.normal) m)) := by
+    have h0 : signedDist (planeVia tmin sqrt pl m D) (mulM44 (smul pl.distance pl.normal) m) = 0 := hP0
+    simp only [signedDist, dot, sub] at h0 ⊢
+    linear_combination h0
+  rw [e3]
+  rw [e2] at hcore
+  field_simp
+  linear_combination hcore
+
+/-- corollary: `plane * M` contains the image of every point of the plane, and only those -/
+theorem Plane3_mulM44_contains (tmin : α) (sqrt : α → α) (hlen : LenSpec (Gen.V3.length tmin sqrt)) (pl : Plane3 α) (m : M44 α)
+    (hu : dot pl.normal pl.normal = 1) (haff : Affine m) (hdet : det3 m ≠ 0) (p : V3 α) :
+    OnPlane (Gen.Plane3.mulM44 tmin sqrt pl m) (mulM44 p m) ↔ OnPlane pl p := by
+  obtain ⟨_, κ, hκ, h⟩ := Plane3_mulM44 tmin sqrt hlen pl m hu haff hdet
+  unfold OnPlane
+  rw [h p]
+  constructor
+  · intro h0
+    rcases mul_eq_zero.mp h0 with h1 | h1
+    · rcases mul_eq_zero.mp h1 with h2 | h2
+      · exact absurd h2 (ne_of_gt hκ)
+      · exact absurd h2 hdet
+    · exact h1
+  · intro h0; rw [h0, mul_zero]
+
+/-- corollary: an orientation-preserving `M` keeps every point on the same side of the plane -/
+theorem Plane3_mulM44_sides (tmin : α) (sqrt : α → α) (hlen : LenSpec (Gen.V3.length tmin sqrt)) (pl : Plane3 α) (m : M44 α)
+    (hu : dot pl.normal pl.normal = 1) (haff : Affine m) (hdet : 0 < det3 m) (p : V3 α) :
+    (0 < signedDist (Gen.Plane3.mulM44 tmin sqrt pl m) (mulM44 p m) ↔ 0 < signedDist pl p) ∧
+    (signedDist (Gen.Plane3.mulM44 tmin sqrt pl m) (mulM44 p m) < 0 ↔ signedDist pl p < 0) := by
+  obtain ⟨_, κ, hκ, h⟩ := Plane3_mulM44 tmin sqrt hlen pl m hu haff (ne_of_gt hdet)
+  rw [h p]
+  have hpos : 0 < κ * det3 m := mul_pos hκ hdet
+  constructor
+  · exact ⟨fun h0 => (pos_iff_pos_of_mul_pos (by linarith : 0 < κ * det3 m * signedDist pl p)).mp hpos |> fun x => x, fun h0 => mul_pos hpos h0⟩
+  · constructor
+    · intro h0
+      by_contra hc
+      have := mul_nonneg (le_of_lt hpos) (not_lt.mp hc)
+      linarith
+    · intro h0; exact mul_neg_of_pos_of_neg hpos h0
+
+/-! `Plane3_mulM44` covers non-singular AFFINE matrices with `m[3][3] = 1`.  Missing (would be `_partial` items of the
+full property): projective matrices (the `Vec3 * Matrix44` homogeneous divide is in the model, `Plane3_mulM44_cases`
+holds for every `M`, but the incidence statement for a projective map is not proved) and singular matrices. -/
 
 end ImathVerif.C15
